@@ -621,6 +621,79 @@ def ob_parameter_objects():
     return held("explicit, global and fresh parameter objects are independent; explicit 7/6 == global 7/6 bitwise (dense matrix action, potential); potentials and assembled operators keep the orders of their construction")
 
 
+FMM_FLAG_SCRIPT = r'''
+import sys, os, json, warnings, tempfile
+warnings.simplefilter("ignore")
+sys.path.insert(0, %(verif)r); sys.path.insert(0, os.path.join(%(verif)r, "stubs"))
+os.chdir(tempfile.mkdtemp(prefix="c18f_"))
+import numpy as np
+import bempp_cl.api as api
+from bempp_cl.api.utils.parameters import DefaultParameters
+from bempp_cl.api.operators.boundary import laplace
+from bempp_cl.api.fmm import fmm_assembler
+import exafmm._common as stub
+from vlib import zoo as Z
+grid = Z.grid_with_domains("octa")
+dp0 = api.function_space(grid, "DP", 0)
+x = np.arange(1.0, dp0.global_dof_count + 1)
+G = api.GLOBAL_PARAMETERS
+problems = []
+def library_calls(explicit, global_value):
+    """number of far-field evaluations handed to the FMM library by one matvec; explicit=None: parameters=None"""
+    fmm_assembler.clear_fmm_cache()
+    G.fmm.dense_evaluation = global_value
+    par = None
+    if explicit is not None:
+        par = DefaultParameters()
+        par.fmm.dense_evaluation = explicit
+        par.quadrature.regular, par.quadrature.singular = G.quadrature.regular, G.quadrature.singular
+    op = laplace.single_layer(dp0, dp0, dp0, assembler="fmm", parameters=par).weak_form()
+    before = stub.CALLS[0]
+    y = op @ x
+    return stub.CALLS[0] - before, y
+ref_lib, y_lib = library_calls(None, False)      # the value False set globally: the library is used
+ref_dense, y_dense = library_calls(None, True)   # the value True set globally: bempp's own dense evaluation, library not called
+if not (ref_lib > 0 and ref_dense == 0):
+    problems.append("vacuity: global fmm.dense_evaluation False / True gives %%d / %%d library calls" %% (ref_lib, ref_dense))
+for explicit, global_value in ((False, True), (True, False), (False, False), (True, True)):
+    n, y = library_calls(explicit, global_value)
+    want = ref_dense if explicit else ref_lib
+    if n != want:
+        problems.append("explicit fmm.dense_evaluation=%%s with the global value %%s: %%d library calls, the same value set globally gives %%d" %% (explicit, global_value, n, want))
+# an interface built while the global flag was True must not serve a later request with the flag False (cache key)
+fmm_assembler.clear_fmm_cache()
+G.fmm.dense_evaluation = True
+laplace.single_layer(dp0, dp0, dp0, assembler="fmm").weak_form() @ x
+G.fmm.dense_evaluation = False
+before = stub.CALLS[0]
+laplace.single_layer(dp0, dp0, dp0, assembler="fmm").weak_form() @ x
+if stub.CALLS[0] - before != ref_lib:
+    problems.append("after an assembly with the global flag True, a new operator with the flag False makes %%d library calls (fresh process: %%d)" %% (stub.CALLS[0] - before, ref_lib))
+print("RESULT" + json.dumps(problems))
+'''
+
+
+def replay_fmm_flags():
+    env = dict(os.environ, NUMBA_DISABLE_JIT="1", PYTHONPATH="%s:%s" % (VERIF, REPO))
+    p = subprocess.run([sys.executable, "-c", FMM_FLAG_SCRIPT % {"verif": VERIF}], capture_output=True, text=True, env=env, timeout=600)
+    for line in p.stdout.splitlines():
+        if line.startswith("RESULT"):
+            probs = json.loads(line[6:])
+            return {"violates": bool(probs), "problems": probs}
+    return {"violates": True, "problems": ["the scripted session raised: %s" % (p.stderr or p.stdout)[-500:]]}
+
+
+def ob_fmm_flags():
+    """bounded (fresh interpreter, exact-sum exafmm stand-in with a call counter): the FMM option `dense_evaluation` of an explicit parameter object is honoured exactly
+    as the same value set globally - observable as whether the far field is handed to the FMM library or evaluated by bempp's own dense fallback (with an exact library the
+    numbers agree, with a real one they differ at the truncation level) - for all four explicit / global combinations, and across a cache hit."""
+    r = replay_fmm_flags()
+    if r["violates"]:
+        return violated("fmm.dense_evaluation of an explicit parameter object is not honoured like the global value: %s" % r["problems"][:3], witness={"problems": r["problems"]},
+                        signature="fmm-flags", replay={"callable": "checks.c18:replay_fmm_flags", "kwargs": {}, "confirmed": True, "result": r})
+    return held("4 explicit / global combinations and a cache hit: library used exactly when the effective flag is False")
+
+
 def ob_precision():
     """bounded: precision='single' agrees with 'double' to single-precision accuracy (dense, sparse, potential)."""
     import bempp_cl.api as api
@@ -664,6 +737,7 @@ def main():
         run.add("history[%d]" % i, "bounded", ob_history, i)
     run.add("precision.single-vs-double", "bounded", ob_precision)
     run.add("parameter-objects.independent+honoured-like-global", "bounded", ob_parameter_objects)
+    run.add("explicit-parameter-object.fmm.dense_evaluation", "bounded", ob_fmm_flags)
     run.add("construction-time-binding.boundary-operator(parameters=None)", "bounded", ob_lazy_binding)
     run.functions["bempp_cl (all modules, AST scan)"] = {"sha256_16": "n/a", "dropped": "dynamic aliasing of the global objects is not tracked (textual reads only)"}
     run.bound("histories: %d scripted sequences over 10 actions (create/assemble dense & FMM operators, strong form, change global quadrature / FMM parameters, clear_fmm_cache, "
